@@ -7,7 +7,7 @@ from . import common
 
 GROUP = "g08"
 PROP_FILE = "C08.v"
-PROP_PARTS = ["C08_handover.v", "C08_converse.v", "C08_addr.v", "C08_once.v", "C08_timed.v", "C08_free.v"]
+PROP_PARTS = ["C08_handover.v", "C08_converse.v", "C08_ops.v", "C08_addr.v", "C08_once.v", "C08_timed.v", "C08_free.v"]
 
 READER_VERDICTS = {
     1: "wf-header-rejected",
@@ -23,6 +23,13 @@ CONN_VERDICTS = {
     3: "conn-payload-differs",
     4: "conn-malformed-header-delivered-data",
     5: "conn-nil-address",
+}
+OPS_VERDICTS = {
+    1: "ops-call-failed-or-wrong-address-on-wf-header",
+    2: "ops-bytes-read-are-not-a-prefix-of-the-payload",
+    3: "ops-eof-before-the-whole-payload",
+    4: "ops-call-succeeded-without-wf-header",
+    5: "ops-bytes-delivered-without-wf-header",
 }
 E2E_VERDICTS = {
     1: "e2e-process-crash",
@@ -291,6 +298,8 @@ def run(ctx):
                 key += ":after-later-headers-were-read"
         elif kind == "ccases":
             key = CONN_VERDICTS.get(v, "conn-verdict-%d" % v)
+        elif kind == "ocases":
+            key = OPS_VERDICTS.get(v, "ops-verdict-%d" % v)
         elif kind == "lcases":
             key = CONN_VERDICTS.get(v, "conn-verdict-%d" % v) + ":while-the-listener-rate-limit-is-exhausted"
         elif kind == "hcases":
@@ -381,7 +390,7 @@ def run(ctx):
     e2e = meta.get("e2e") or {}
     evaluations = sum(k["cases"] for k in meta.get("kinds", []))
     nontriv = int(meta.get("reader_accepted", 0)) + int(meta.get("v2_sweep_accepted", 0)) + \
-        int(meta.get("conn_cases_delivering_payload", 0)) + int(meta.get("token_ips_accepted", 0)) + int(e2e.get("served", 0))
+        int(meta.get("conn_cases_delivering_payload", 0)) + int(meta.get("ops_cases_delivering_payload", 0)) + int(meta.get("token_ips_accepted", 0)) + int(e2e.get("served", 0))
     coverage = {
         "obligations": len(info["theorems"]) + len(ob_names),
         "discharged": len(info["discharged"]) + len(ob_ok),
@@ -407,7 +416,8 @@ def run(ctx):
                 "that differs is emitted; histories: %s headers read one after the other / connections held open together, each re-examined "
                 "after the later headers were read; v2 sweep: %s; tokens: net.ParseIP and the port parser on every string of length <= %s over "
                 "{0,1,9,a,g,:,.,-,+} + generated addresses; connections: proxyproto.Conn over net.Pipe and proxyproto.Listener over TCP "
-                "with segmented writes and concurrent RemoteAddr/LocalAddr callers; e2e: the full proxy in a child process. "
+                "with segmented writes and concurrent RemoteAddr/LocalAddr callers; random sequences of Read(n)/Write/RemoteAddr/LocalAddr/Header "
+                "calls on one Conn over a segmenting net.Conn; e2e: the full proxy in a child process. "
                 "non-trivial = observations in which the implementation accepted a header / delivered payload / parsed an address / served a request"
                 % (meta.get("history_cases"), meta.get("v2_sweep_domain"), meta.get("token_exhaustive_len")),
         "traces_validated_against_impl": evaluations,
@@ -418,7 +428,7 @@ def run(ctx):
         "distribution": {k: meta.get(k) for k in ("reader_accepted", "reader_rejected", "reader_error_classes",
                                                    "reader_input_lengths", "v2_sweep_cases", "v2_sweep_accepted",
                                                    "token_cases", "token_ips_accepted", "conn_cases_tcp", "conn_cases_pipe",
-                                                   "conn_cases_delivering_payload", "history_cases")},
+                                                   "conn_cases_delivering_payload", "history_cases", "ops_cases", "ops_cases_delivering_payload")},
         "e2e": e2e,
         "samples": meta.get("samples"),
     }
